@@ -89,8 +89,8 @@ func ExpandTable(p *Program, db *ContractDB, fc *FnContract) ([]*FnContract, err
 }
 
 // VerifyFunction generates all obligations of fn under its contract fc.
-func VerifyFunction(p *Program, db *ContractDB, fc *FnContract) *FnResult {
-	res := &FnResult{Name: fc.Name, Contract: fc}
+func VerifyFunction(p *Program, db *ContractDB, fc *FnContract) (res *FnResult) {
+	res = &FnResult{Name: fc.Name, Contract: fc}
 	fn := fc.Fn
 	if fn == nil {
 		res.Err = fmt.Errorf("function %s not found in the source tree", fc.Name)
@@ -124,6 +124,7 @@ func VerifyFunction(p *Program, db *ContractDB, fc *FnContract) *FnResult {
 	}
 	st := &State{PC: TTrue, Heap: map[string]Term{}}
 	st.Brk = x.C.Fresh("brk0", SRef)
+	x.C.brk0 = st.Brk.S
 	x.C.Assume(And(bvCmp("bvuge", st.Brk, BVInt(globalRefLimit, 32)), bvCmp("bvult", st.Brk, BVUint(0x7fffffff, 32))), "initial allocator position")
 	var params []Val
 	for _, prm := range fn.Params {
@@ -238,8 +239,11 @@ func VerifyFunction(p *Program, db *ContractDB, fc *FnContract) *FnResult {
 			}
 			cs, ct, lo, hi = en.Cases, x.C.Name("case", cv), en.CaseLo, en.CaseHi
 			inRange := And(bvCmp("bvsle", BVInt(int64(lo), 64), ct), bvCmp("bvsle", ct, BVInt(int64(hi), 64)))
-			// the remaining values are one more instance of the same obligation
-			x.C.AddObligation(fc.Name+"#post:"+en.Label, "post", fc.Name, And(st.PC, Not(inRange)), t, en.Text+" [case: outside the split range]")
+			// the remaining values are one more instance of the same obligation (dropped when the incremental
+			// solver already refutes that any value lies outside the range)
+			if x.feasible(And(st.PC, Not(inRange))) {
+				x.C.AddObligation(fc.Name+"#post:"+en.Label, "post", fc.Name, And(st.PC, Not(inRange)), t, en.Text+" [case: outside the split range]")
+			}
 		}
 		if cs != nil {
 			for k := lo; k <= hi; k++ {
@@ -265,7 +269,14 @@ func VerifyFunction(p *Program, db *ContractDB, fc *FnContract) *FnResult {
 			res.Err = fmt.Errorf("%s: assigns frame: %v", fc.Name, err)
 			return res
 		}
-		o := x.C.AddObligation(fc.Name+"#post:assigns-frame", "frame", fc.Name, st.PC, x.C.Name("frame", t), "nothing outside the declared assigns clauses changes")
+		note := "nothing outside the declared assigns clauses changes"
+		if x.oldWrites == 0 {
+			// every store of the execution went through a reference that is syntactically brk0+k: only objects
+			// allocated by the function itself were written, so the entry heap is untouched
+			t = TTrue
+			note += " (syntactic: every store targets an object allocated by the function itself)"
+		}
+		o := x.C.AddObligation(fc.Name+"#post:assigns-frame", "frame", fc.Name, st.PC, x.C.Name("frame", t), note)
 		o.Detail = "assigns frame"
 	}
 	// size hints for replayable models: small slices
@@ -371,6 +382,7 @@ func (x *Exec) applyContract(fr *Frame, st *State, fn *ssa.Function, fc *FnContr
 // havocLValue: assigns clause. Forms: `*p`, `p.f`, `p.f[i]`, `s[*]` (all elements of slice s), `heap(T)`.
 func (x *Exec) havocLValue(env *EvalEnv, st *State, cl Clause) error {
 	txt := strings.TrimSpace(cl.Text)
+	x.oldWrites++
 	if strings.HasSuffix(txt, "[*]") {
 		v, err := env.Eval(cl.Expr)
 		if err != nil {
@@ -413,6 +425,10 @@ func (x *Exec) loopContract(fr *Frame, L *Loop) *LoopContract {
 		// inlined callee: look up its own contract for loop annotations
 		if fc := x.DB.For(fr.Fn); fc != nil {
 			return matchLoop(fr, L, fc)
+		}
+		// helper without its own contract: the default invariant of the function under verification applies
+		if x.topContract != nil && x.topContract.Opts["loopinv"] != "" {
+			return matchLoop(fr, L, &FnContract{Opts: map[string]string{"loopinv": x.topContract.Opts["loopinv"]}})
 		}
 		return nil
 	}
